@@ -344,3 +344,5 @@ def _points_to_mutable(t):
 def pre(chk):
     from . import c19
     c19.hlp_t(chk, ("clang++",))
+    from .. import tlw
+    tlw.run(chk, "RULE-T", "w_ruletype.cpp")
